@@ -5,6 +5,7 @@ use serde_json::Value;
 use crate::report::{CheckInfo, Partial, Tier, Violation};
 
 pub mod c02;
+pub mod c05;
 pub mod c06;
 pub mod c07;
 pub mod c08;
@@ -32,6 +33,7 @@ pub fn all() -> Vec<CheckDef> {
         c02::def(),
         srvchecks::def_c03(),
         srvchecks::def_c04(),
+        c05::def(),
         c06::def(),
         c07::def(),
         c08::def(),
